@@ -222,6 +222,30 @@ pub fn run(rep: &mut Report, prop: &str) {
                 }
             }
         }
+        "C05" | "C18" => {
+            // outbound requests for the token and toward the chains the pinned version recorded
+            let user = l.w.users[1].clone();
+            let canon = l.canon.clone();
+            mint(&mut l.w.u, &canon, &user, 100);
+            l.w.fund_gas(&user, 10);
+            let gas = l.w.gas.addr.clone();
+            let its = l.w.its.clone();
+            for (dest, want) in [(&b"Old-Z"[..], false), (&b"Polygon-never"[..], false), (&b"Ethereum-X"[..], true)] {
+                let custody = balance(&mut l.w.u, &canon.addr, &its);
+                let o = if prop == "C05" {
+                    l.w.do_transfer(&user, &l.canon_id.clone(), dest, b"0xdest", 10, None, &gas, 1, Auth::Only(vec![user.clone()])).res.map(|_| ())
+                } else {
+                    l.w.do_deploy_remote_canonical(&canon.addr, dest, &user, &gas, 1, Auth::Only(vec![user.clone()])).res.map(|_| ())
+                };
+                let moved = balance(&mut l.w.u, &canon.addr, &its) - custody;
+                rep.eval("legacy-state", &format!("legacy|outbound|{}|{}", lossy(dest), o.is_ok()), true);
+                let want_moved = if want && prop == "C05" { 10 } else { 0 };
+                if o.is_ok() != want || moved != want_moved {
+                    viol(rep, &format!("outbound-toward-{}", if want { "trusted-chain-refused" } else { "untrusted-chain-accepted" }), format!("destination {:?}: ok={} custody changed by {}: {:?}", lossy(dest), o.is_ok(), moved, o.err()));
+                    return;
+                }
+            }
+        }
         "C02" => {
             for m in [l.m_done.clone(), l.m_pending.clone()] {
                 if let Some(d) = l.w.g.check_status(&mut l.w.u, &m) {
